@@ -87,7 +87,7 @@ func C11(c *core.Ctx) {
 			if !c.Quick() || n%2 == 0 {
 				pim, _ := plainOf(cs["implicit"]).(map[string]interface{})
 				pex, _ := plainOf(cs["explicit"]).(map[string]interface{})
-				for _, pl := range []string{"named", "override", "extends", "extends-refined", "included"} {
+				for _, pl := range []string{"named", "override", "extends", "extends-refined", "extends-other-dir", "included"} {
 					li := c11Place(wd, "i", pl, pim)
 					le := c11Place(wd, "e", pl, pex)
 					if li == nil || le == nil {
@@ -102,6 +102,11 @@ func C11(c *core.Ctx) {
 						c.Report(core.Finding{Sig: "defaults-differ-" + pl + ":" + key, Detail: fmt.Sprintf("%s (%s): the implicit form gives %v, the explicit form gives %v — %s", key, pl, e1, e2, implicit), Replay: rep})
 					default:
 						if a, b := projDump(qi), projDump(qe); a != b {
+							// one known class: the only difference is the build context left implicit on a base of another directory
+							if pl == "extends-other-dir" && strings.ReplaceAll(b, filepath.Join(wd, "xsub")+`"`, wd+`"`) == a {
+								c.Report(core.Finding{Sig: "extended-base-implicit-build-context", Detail: fmt.Sprintf("%s (%s): a build section without `context` on a base service of a file in another directory builds from the project directory, with `context: .` written out from the base file's directory — implicit %s", key, pl, implicit), Replay: rep})
+								continue
+							}
 							c.Report(core.Finding{Sig: "defaults-differ-" + pl + ":" + key, Detail: fmt.Sprintf("%s (%s): implicit %s and explicit %s load to different projects: %s", key, pl, implicit, explicit, firstDiff(a, b)), Replay: rep})
 						}
 					}
@@ -259,6 +264,14 @@ func c11Place(wd, tag, placement string, doc map[string]interface{}) []namedDoc 
 			derived["depends_on"] = map[string]interface{}{"db": map[string]interface{}{"condition": "service_healthy", "restart": true, "required": false}}
 		}
 		svcs["a"] = derived
+		return []namedDoc{{Name: main, Content: js(d)}}
+	case "extends-other-dir":
+		// the whole service sits on a base in a file of a sub-directory (the same directory for both forms)
+		_ = os.MkdirAll(filepath.Join(wd, "xsub"), 0o755)
+		_ = os.WriteFile(filepath.Join(wd, "xsub", "a.env"), []byte("FROMFILE=1\n"), 0o644)
+		base := map[string]interface{}{"services": map[string]interface{}{"abase": a}}
+		_ = os.WriteFile(filepath.Join(wd, "xsub", tag+"-base.yaml"), []byte(js(base)), 0o644)
+		svcs["a"] = map[string]interface{}{"extends": map[string]interface{}{"file": "xsub/" + tag + "-base.yaml", "service": "abase"}}
 		return []namedDoc{{Name: main, Content: js(d)}}
 	case "included":
 		_ = os.WriteFile(filepath.Join(wd, tag+"-inc.yaml"), []byte(js(d)), 0o644)
